@@ -35,7 +35,7 @@ from spyne.error import ValidationError
 from spyne.error import ResourceNotFoundError
 
 from spyne.model import ByteArray, File, Fault, ComplexModelBase, Array, Any, \
-    AnyDict, Uuid, Unicode, Boolean, Integer, Double
+    AnyDict, Uuid, Unicode, Boolean, Integer, Double, Decimal
 
 from spyne.protocol.dictdoc import DictDocument
 
@@ -214,6 +214,22 @@ class HierDictDocument(DictDocument):
                                             and not issubclass(cls, ByteArray)) \
                         or (isinstance(inst, bool) and not
                                    issubclass(cls, (Boolean, Integer, Double))):
+                    raise ValidationError([key, inst])
+
+                # the same goes for a number where the declared type is not
+                # numeric, and for a list that holds anything but byte chunks
+                if isinstance(inst, (six.integer_types, float)) \
+                                               and not isinstance(inst, bool):
+                    if not issubclass(cls, (Decimal, Boolean)):
+                        raise ValidationError([key, inst])
+
+                    if not issubclass(cls, (Integer, Double)):
+                        # decimals travel as strings but a number is fine
+                        inst = repr(inst)
+
+                elif isinstance(inst, (list, tuple)) and not all(
+                         isinstance(c, (six.binary_type, six.text_type,
+                                           memoryview, mmap)) for c in inst):
                     raise ValidationError([key, inst])
 
                 if cls_attrs.empty_is_none and inst in (u'', b''):
